@@ -398,12 +398,17 @@ func startMemoryWatchdog(limit uint64, prop string, seed uint64, shard int, outD
 			} else {
 				buf := make([]byte, 1<<20)
 				buf = buf[:runtime.Stack(buf, true)]
-				if !blockedInIce(string(buf)) {
-					fmt.Fprintf(os.Stderr, "HARNESS ERROR: no progress for %v and no goroutine is blocked inside ice\n%s\n", stallLimit, trimDump(string(buf)))
+				switch {
+				case blockedInIce(string(buf)):
+					fail = &Fail{Prop: prop, Oracle: "progress", Kind: "hang", Site: c.Scen,
+						Detail: fmt.Sprintf("no progress for %v while this case was executing (or being set up): a goroutine is blocked inside ice on a lock, semaphore or channel nobody will release - typically something leaked by an earlier failed operation\n%s", stallLimit, trimDump(string(buf)))}
+				case runningInIce(string(buf)):
+					fail = &Fail{Prop: prop, Oracle: "progress", Kind: "hang", Site: c.Scen,
+						Detail: fmt.Sprintf("no progress for %v while this case was executing: a goroutine has been running inside ice all that time without returning - a loop that does not terminate (typically an unbounded retry)\n%s", stallLimit, trimDump(string(buf)))}
+				default:
+					fmt.Fprintf(os.Stderr, "HARNESS ERROR: no progress for %v and no goroutine is blocked or running inside ice\n%s\n", stallLimit, trimDump(string(buf)))
 					os.Exit(2)
 				}
-				fail = &Fail{Prop: prop, Oracle: "progress", Kind: "hang", Site: c.Scen,
-					Detail: fmt.Sprintf("no progress for %v while this case was executing (or being set up): a goroutine is blocked inside ice on a lock, semaphore or channel nobody will release - typically something leaked by an earlier failed operation\n%s", stallLimit, trimDump(string(buf)))}
 			}
 			rp := &Replay{Property: prop, Check: prop, Scenario: c.Scen, Seed: seed, Shard: shard, Case: c, Verdict: fail, Trace: "0", Minimal: false}
 			path := filepath.Join(outDir, fmt.Sprintf("%s-by%s-%s-%d-%d.json", prop, prop, c.Scen, seed, shard))
